@@ -36,7 +36,8 @@ class Contract:
     def __init__(self, key, types=None, returns=None, requires=(), ensures=(), modifies=(), raises=None,
                  decreases=None, ghost_exit=None, bitvector=None, pure=False, variants=None, notes="",
                  kwargs_types=None, havoc_result=True, max_paths=400, loops=None, allow_global_writes=(),
-                 hint_terms=(), use_lemmas=(), reads=(), trusted=False, trusted_ensures=(), prune=False):
+                 hint_terms=(), use_lemmas=(), reads=(), trusted=False, trusted_ensures=(), prune=False,
+                 record=False, raises_ensures=()):
         self.key = key
         self.types = dict(types or {})
         self.returns = returns
@@ -58,6 +59,8 @@ class Contract:
         self.trusted = trusted
         self.trusted_ensures = list(trusted_ensures)
         self.prune = prune
+        self.record = record
+        self.raises_ensures = list(raises_ensures)
         self.use_lemmas = use_lemmas if isinstance(use_lemmas, dict) else {"": list(use_lemmas)}
 
     @property
@@ -379,6 +382,8 @@ def _sp_cat(eng, args, kw, n):
             continue
         if isinstance(a, Conc) and isinstance(a.v, (list, tuple)):
             a = lib.make_list(eng, [Conc(x) for x in a.v])
+        if isinstance(a, TupV):
+            a = lib.make_list(eng, list(a.items))
         sq = lib.seq_of(eng, a)
         if sq is None:
             continue
@@ -414,7 +419,30 @@ def _sp_has(eng, args, kw, n):
     return P(BOOL, z3.Contains(sq.term, z3.Unit(eng.term(args[1], sq.ty.args[0]))))
 
 
-SPEC_BUILTINS = {"cat": _sp_cat, "unit_if": _sp_unit_if, "seq": _sp_seq, "has": _sp_has, "implies": _sp_implies, "iff": _sp_iff, "dom": _sp_dom, "bit": _sp_bit, "pow2": _sp_pow2,
+def _sp_called(eng, args, kw, n):
+    name = args[0].v
+    return Conc(any(k.endswith(name) for k, _ in eng.st.calls))
+
+
+def _sp_callarg(eng, args, kw, n):
+    name, param = args[0].v, args[1].v
+    hits = [b for k, b in eng.st.calls if k.endswith(name)]
+    if len(hits) == 0:
+        # no call on this path: an unconstrained value (any claim about it can only hold vacuously)
+        for k, c in eng.reg.contracts.items():
+            if k.endswith(name) and param in c.types:
+                return eng.fresh(c.types[param], "nocall." + param)
+    if len(hits) != 1:
+        raise Unsupported("callarg: %d recorded calls of %s" % (len(hits), name))
+    return hits[0][param]
+
+
+def _sp_ncalls(eng, args, kw, n):
+    name = args[0].v
+    return Conc(sum(1 for k, _ in eng.st.calls if k.endswith(name)))
+
+
+SPEC_BUILTINS = {"called": _sp_called, "callarg": _sp_callarg, "ncalls": _sp_ncalls, "cat": _sp_cat, "unit_if": _sp_unit_if, "seq": _sp_seq, "has": _sp_has, "implies": _sp_implies, "iff": _sp_iff, "dom": _sp_dom, "bit": _sp_bit, "pow2": _sp_pow2,
                  "B": _sp_B, "V": _sp_V, "binfmt": _sp_binfmt, "sibling": _sp_sibling, "size": _sp_size,
                  "inv": _sp_inv, "setadd": _sp_setadd}
 
